@@ -41,6 +41,7 @@ class RecWorld(World):
         self.force_in = None       # label for deliveries that belong to a tunnel handshake
         self.transport = None      # tunnel family: the real connection (to the proxy) carrying ctx.server
         self.dead = ""             # sides ("c"/"s") whose writer.write_eof() raises OSError
+        self.connect_failed = False
 
     def _close(self, conn, half_close):
         # ConnectionHandler.close_connection, `except OSError` branch: "if we can't write to the socket anymore we
@@ -74,7 +75,9 @@ class RecWorld(World):
             return f"inject {1 if ev.message.from_client else 0} {hx(ev.message.content)}"
         if isinstance(ev, events.HookCompleted):
             return "hookkill" if self.edit_repr == "kill" else f"hook {self.edit_repr}"
-        if isinstance(ev, events.OpenConnectionCompleted): return f"connect {1 if ev.reply else 0}"
+        if isinstance(ev, events.OpenConnectionCompleted):
+            # the model gets the reply itself (None / "" / message) and applies the layers' `if err:` on its own
+            return "connectr " + ("none" if ev.reply is None else hx(ev.reply.encode()))
         return "?" + type(ev).__name__
 
     def render(self, c):
@@ -93,6 +96,7 @@ class RecWorld(World):
 
     def _handle(self, event):
         ent = {"in": self.force_in or self.describe(event), "out": [], "pre": bits(self.ctx.client) + self.server_bits()}
+        if isinstance(event, events.OpenConnectionCompleted) and self.connect_failed: ent["failed"] = True
         self.log.append(ent)
         try:
             for c in self.layer.handle_event(event):
@@ -124,6 +128,78 @@ def set_last(flow, content):
         flow.messages[-1].content = content
 
 
+FAIL_KINDS = {
+    "refused": lambda: ConnectionRefusedError(111, "Connection refused"),
+    "timeout": lambda: TimeoutError(),              # str() == "": what a connect timeout looks like
+    "oserror": lambda: OSError(),
+    "connerr": lambda: ConnectionError(),
+    "gaierror": lambda: __import__("socket").gaierror(-2, "Name or service not known"),
+    "cancel": lambda: __import__("asyncio").CancelledError(),
+}
+
+
+def real_open_connection_failure(ctx, cmd, kind):
+    """run the REAL ConnectionHandler.open_connection for `cmd` with a transport stub that raises; return
+    (reply the handler completes the command with, str(exception))"""
+    import asyncio
+    import mitmproxy_rs
+    from mitmproxy.proxy import server as pserver
+    exc = FAIL_KINDS[kind]()
+
+    class Handler(pserver.ConnectionHandler):
+        captured = None
+
+        async def handle_hook(self, hook): pass
+
+        def log(self, *a, **k): pass
+
+        async def server_event(self, event): self.captured = event
+
+    async def failing(*a, **k):
+        raise exc
+
+    async def main():
+        h = Handler(ctx)
+        try:
+            await h.open_connection(cmd)
+        except asyncio.CancelledError:
+            pass
+        return h.captured
+    real_tcp, real_udp = asyncio.open_connection, mitmproxy_rs.udp.open_udp_connection
+    asyncio.open_connection = failing
+    mitmproxy_rs.udp.open_udp_connection = failing
+    try:
+        ev = asyncio.run(main())
+    finally:
+        asyncio.open_connection, mitmproxy_rs.udp.open_udp_connection = real_tcp, real_udp
+    cmd.connection.timestamp_start = None      # the attempt set it; the layers key on it only before they ask to connect
+    return ev.reply, str(exc)
+
+
+def do_connect_action(w, ctx, cmd, what, openreplies):
+    """what: 0 success | 1 failure reported by the world ("boom") | a FAIL_KINDS key: failure through the real
+    open_connection | "emptyok": the transport is up but the reply is "" (layer-level boundary: "" is not an error)"""
+    if what in FAIL_KINDS:
+        reply, msg = real_open_connection_failure(ctx, cmd, what)
+        openreplies.append(["cancelled" if what == "cancel" else "oserror", hx(msg.encode()), "none" if reply is None else hx(reply.encode())])
+        w.deferred_connects.remove(cmd)
+        w.connect_failed = True        # the harness's own transport stub failed: input-derived fact for the oracle
+        # the connection was never opened: it stays CLOSED and outside the transports, whatever the reply says
+        w.deliver(events.OpenConnectionCompleted(cmd, reply))
+    elif what == "emptyok":
+        conn = cmd.connection
+        w.deferred_connects.remove(cmd)
+        conn.timestamp_start = 1.0; conn.state = ConnectionState.OPEN
+        conn.peername = conn.peername or conn.address; conn.sockname = conn.sockname or ("127.0.0.1", 50000)
+        w.transports.add(conn)
+        w.deliver(events.OpenConnectionCompleted(cmd, ""))
+    elif what:
+        w.connect_failed = True
+        w.finish_connect(cmd, "boom")
+    else:
+        w.finish_connect(cmd, None)
+
+
 def flow_flags(lay):
     f = getattr(lay, "flow", None)
     return (1, 0) if f is None else (1 if f.live else 0, 1 if f.error else 0)
@@ -151,6 +227,7 @@ def run_schedule(case):
     inj_cls = ltcp.TcpMessageInjected if proto == "tcp" else ludp.UdpMessageInjected
     msg_cls = tcp.TCPMessage if proto == "tcp" else udp.UDPMessage
     killed = 0
+    openreplies = []
 
     def do_hook(edit):
         nonlocal killed
@@ -184,7 +261,7 @@ def run_schedule(case):
             do_hook(act[1])
         elif k == "connect":
             if w.deferred_connects:
-                w.finish_connect(w.deferred_connects[0], "boom" if act[1] else None)
+                do_connect_action(w, ctx, w.deferred_connects[0], act[1], openreplies)
         else:
             raise ValueError(act)
     # let everything that is still pending complete (no edits, connect succeeds): the run ends quiescent
@@ -196,7 +273,7 @@ def run_schedule(case):
     return {"steps": w.log, "errors": [e[:2] for e in w.errors], "msgs": msgs,
             "live": bool(lay.flow.live) if lay.flow else None,
             "has_error": bool(lay.flow.error) if lay.flow else None, "killed": killed,
-            "quiescent": lay._paused is None}
+            "quiescent": lay._paused is None, "openreplies": openreplies}
 
 
 class ChildTap:
@@ -255,6 +332,7 @@ def run_schedule_tunnel(case):
     # both the virtual connection and the proxy connection are the "server" side of the relay
     tunnel_up = False
     killed = 0
+    openreplies = []
 
     def do_hook(edit):
         nonlocal killed
@@ -272,7 +350,7 @@ def run_schedule_tunnel(case):
         if not w.deferred_connects: return
         cmd = w.deferred_connects[0]
         if err:
-            w.finish_connect(cmd, "boom"); return
+            do_connect_action(w, ctx, cmd, err if err != "emptyok" else 1, openreplies); return
         # TCP connect to the proxy succeeds, CONNECT request goes out, the proxy answers 200: one atomic step
         w.force_in = "handshake"
         try:
@@ -313,7 +391,7 @@ def run_schedule_tunnel(case):
     msgs = [[1 if m.from_client else 0, hx(m.content)] for m in lay.flow.messages]
     return {"steps": w.log, "csteps": tap.log, "errors": [e[:2] for e in w.errors], "msgs": msgs,
             "live": bool(lay.flow.live), "has_error": bool(lay.flow.error), "killed": killed,
-            "quiescent": lay._paused is None and tun._paused is None}
+            "quiescent": lay._paused is None and tun._paused is None, "openreplies": openreplies}
 
 
 def well_formed(case):
@@ -337,6 +415,9 @@ class Check(PropertyCheck):
                   "half_close_propagated_while_other_direction_flows, half_close_emitted_once_quiescent (closes buffered behind "
                   "hooks), full_close_only_when_ending, tcp_ends_only_when_both_directions_closed, at_most_one_end_or_error, "
                   "exactly_one_end_or_error, connect_failure_fires_error, nothing_relayed_after_end, "
+                  "open_connection_reply_truthy_iff_failed + failed_connect_ends_flow_with_error + empty_reply_is_taken_as_success "
+                  "(OpenConnectionCompleted.reply is None / \"\" / message; the layers' `if err:` takes \"\" as success, and the "
+                  "modelled open_connection mapping never yields it for a failure, whatever str(exception) is), "
                   "messages_handled_in_arrival_order + handled_is_prefix_of_arrivals (the message hooks fired, followed by the data "
                   "still in the pause queue, are exactly the data/injected events delivered after Start, in delivery order: "
                   "the replay of buffered events never reorders); the *_any_sockets variants "
@@ -347,7 +428,10 @@ class Check(PropertyCheck):
                   "flow.live / flow.error flags; families: plain, dead sockets (OSError branch emulated as in server.py), and the "
                   "real TCPLayer under a real tunnel layer (HttpUpstreamProxy / tunnel.py; tie at the tunnel/TCPLayer boundary, "
                   "property oracle on what reaches the transport connection).")
-    level_note = ("inside the model: TCPLayer, UDPLayer, Layer.handle_event/__continue, ConnectionHandler.close_connection "
+    level_note = ("inside the model: TCPLayer, UDPLayer, Layer.handle_event/__continue, the error-message mapping of "
+                  "ConnectionHandler.open_connection (tied: the REAL open_connection runs with a raising transport stub for "
+                  "refused / gaierror / bare TimeoutError() / OSError() / ConnectionError() / CancelledError; the model predicts the "
+                  "reply and, from the reply, the layer's branch), ConnectionHandler.close_connection "
                   "incl. the OSError branch of write_eof (a per-run environment flag per socket), Flow.kill()/killable as seen by "
                   "the layers. Liveness theorems (exactly_one_end_or_error, half_close_emitted_once_quiescent, "
                   "half_close_propagated...) are stated for live sockets: with a dead socket the ConnectionClosed that the "
@@ -366,12 +450,13 @@ class Check(PropertyCheck):
             "proto x flow/ignore x server pre-connected; exhaustive short schedules first, then random ones of length <= 16 "
             "(about 10% contain events server.py cannot produce: second close, data after close). distinct = distinct "
             "(config, effective input sequence); non-trivial = at least one SendData or close command was produced.")
-    budget = {"quick": 15000, "thorough": 600000}
+    budget = {"quick": 12000, "thorough": 600000}
     time_budget = {"quick": 15, "thorough": 540}
     fingerprints = ["mitmproxy.flow:Flow.kill", "mitmproxy.flow:Flow.killable", "mitmproxy.proxy.tunnel:TunnelLayer", "mitmproxy.proxy.layers.tcp:TCPLayer", "mitmproxy.proxy.layers.udp:UDPLayer",
                     "mitmproxy.proxy.layer:Layer.handle_event", "mitmproxy.proxy.layer:Layer._Layer__continue",
                     "mitmproxy.proxy.layer:Layer._Layer__process",
-                    "mitmproxy.proxy.server:ConnectionHandler.close_connection"]
+                    "mitmproxy.proxy.server:ConnectionHandler.close_connection",
+                    "mitmproxy.proxy.server:ConnectionHandler.open_connection"]
     trusted_base = ["harness/common/world.py as the stand-in for proxy/server.py (delivery order, state bookkeeping)"]
     parallel = False              # set per tier in setup(): process pool only for the thorough tier
 
@@ -410,6 +495,24 @@ class Check(PropertyCheck):
                 st("hook none", ["S:s:30", "C:s:h", "H:msg:c:31"], "-wrw", "-w", "r-", paused=1, n=2),
                 st("hook none", ["S:s:31"], "-wr-", "-w", "r-", n=2)], [[1, "30"], [1, "31"]]),
         }
+        def fst(inp, out, ph, paused, failed=False):
+            d = st(inp, out, "rw--", "rw", "--", ph, paused)
+            if failed: d["failed"] = True
+            return d
+        ncase = {"proto": "tcp", "flow": 1, "connected": 0, "sched": []}
+
+        def nobs(steps):
+            return {"steps": [fst("start", ["H:start"], "start", 1), fst("hook none", ["O"], "start", 1)] + steps, "errors": [],
+                    "msgs": [], "live": True, "has_error": False, "killed": 0, "quiescent": True}
+        bad_connect = {
+            "failed connect taken as success": nobs([fst("connectr -", [], "relay", 0, True)]),
+            "failed connect, flow ends with the end hook": nobs([fst("connectr -", [], "relay", 0, True),
+                                                                 fst("closed c 1", ["H:end"], "done", 1)]),
+            "failed connect, client left open": nobs([fst("connectr 626f6f6d", ["H:err"], "start", 1, True),
+                                                      fst("hook none", [], "done", 0)]),
+        }
+        for label, o in bad_connect.items():
+            if not self.oracle(ncase, o): raise AssertionError(f"known_selftest: oracle accepts doctored observation '{label}'")
         good = {
             "second ConnectionClosed of the same side without a new half-close": obs([
                 st("closed c 0", ["C:s:h"], "-wrw", "-w", "r-"), st("closed c 0", [], "-wr-", "-w", "r-")], []),
@@ -457,15 +560,42 @@ class Check(PropertyCheck):
                     for flow in (1, 0):
                         yield {"proto": "tcp", "flow": flow, "connected": 1, "dead": dead, "sched": [list(a) for a in t]}
 
+    def enum_connect(self):
+        """every kind of connect outcome (incl. exceptions whose str() is empty, cancellation, and the layer-level
+        reply "") x what is buffered before / arrives after, for TCP and UDP, with and without a flow, plain and tunnelled"""
+        pres = [[], [["hook", None]], [["data", "c", "61"], ["hook", None]], [["hook", None], ["data", "c", "61"]],
+                [["close", "c", 0], ["hook", None]], [["hook", "kill"]]]
+        posts = [[], [["hook", None]], [["hook", None], ["data", "c", "62"]], [["data", "c", "62"], ["hook", None], ["hook", None]],
+                 [["close", "c", 0], ["hook", None]]]
+        for what in [0, 1, "emptyok"] + sorted(FAIL_KINDS):
+            for pre in pres:
+                for post in posts:
+                    sched = [list(a) for a in pre] + [["connect", what]] + [list(a) for a in post]
+                    for proto in ("tcp", "udp"):
+                        for flow in (1, 0):
+                            yield {"proto": proto, "flow": flow, "connected": 0, "sched": sched}
+                    if what != "emptyok":
+                        yield {"proto": "tcp", "flow": 1, "connected": 0, "tunnel": 1, "sched": sched}
+
     def generate(self, rng, tier):
+        yield from self.enum_connect()
         yield from self.enum_dead(3 if tier == "quick" else 5)
         yield from self.enum_tunnel(2)
-        yield from self.enum(3, self.ALPHA[:10]) if tier == "quick" else self.enum(4, self.ALPHA)
+        if tier == "quick":
+            yield from self.enum(2, self.ALPHA)
+            yield from self.enum(3, self.ALPHA[:7])
+        else:
+            yield from self.enum(4, self.ALPHA)
         yield from self.enum_tunnel(3 if tier == "quick" else 5)
         if tier == "thorough":
             yield from self.enum(6, self.ALPHA[:7])
         while True:
             yield self.random_case(rng)
+
+    @staticmethod
+    def connect_outcome(rng, p_fail):
+        if not rng.chance(p_fail): return 0
+        return rng.pick([1, "emptyok"] + sorted(FAIL_KINDS))
 
     def random_case(self, rng):
         proto = "tcp" if rng.chance(0.65) else "udp"
@@ -483,7 +613,7 @@ class Check(PropertyCheck):
             # usually let the connection come up early so that relaying is exercised
             pre = [["hook", None]] if flow else []
             if rng.chance(0.3): pre.insert(0, ["data", "c", payload()])
-            sched += pre + [["connect", 1 if rng.chance(0.15) else 0]]
+            sched += pre + [["connect", self.connect_outcome(rng, 0.15)]]
         while len(sched) < n:
             k = rng.weighted([(30, "data"), (8, "inject"), (10, "close"), (30, "hook"), (4, "connect")])
             if k == "data":
@@ -503,7 +633,7 @@ class Check(PropertyCheck):
                 e = rng.weighted([(50, None), (30, "edit"), (6, "-"), (6, "kill")])
                 sched.append(["hook", payload() if e == "edit" else e])
             else:
-                sched.append(["connect", 1 if rng.chance(0.3) else 0])
+                sched.append(["connect", self.connect_outcome(rng, 0.3)])
         case = {"proto": proto, "flow": flow, "connected": connected, "sched": sched}
         if proto == "tcp" and rng.chance(0.2):
             case["dead"] = rng.pick(["c", "s", "cs"])      # write_eof raises OSError on these sockets
@@ -598,7 +728,7 @@ class Check(PropertyCheck):
         if flow and obs["quiescent"] and obs["steps"]:
             last = obs["steps"][-1]
             # OpenConnectionCompleted with an error is only ever delivered in reply to the layer's OpenConnection
-            failed_connect = any(st["in"] == "connect 1" for st in obs["steps"])
+            failed_connect = any(st.get("failed") for st in obs["steps"])      # the harness's own transport stub failed
             both_closed = "r" not in last["c"] and "r" not in last["s"]
             any_closed = any(st["in"].startswith("closed") for st in obs["steps"])
             must_end = failed_connect or (both_closed if proto == "tcp" else any_closed)
@@ -606,6 +736,19 @@ class Check(PropertyCheck):
                 fails.append(f"flow finished (connect failed / peers closed) but {len(ends)} end/error hooks fired")
             if len(ends) == 1 and obs["live"] and outs[ends[0]][1] == "H:end":
                 fails.append("end hook fired but flow.live still True at quiescence")
+        # (3b) "connection failures": a connect that FAILED (the harness's transport stub raised / the world refused) must
+        #      end the flow with its error hook - whatever the exception's str() is - and nothing may be relayed
+        for i, st in enumerate(obs["steps"]):
+            if not st.get("failed"): continue
+            allouts = [o for _, o in outs]
+            if flow and "H:err" not in st["out"]:
+                fails.append(f"{st['in']}: the connection attempt failed but no error hook fired (outputs {st['out']})")
+            if "H:end" in allouts:
+                fails.append(f"{st['in']}: the connection attempt failed but the flow ended with the end hook")
+            if any(o.startswith("S:") for o in allouts) or (flow and any(o.startswith("H:msg") for o in allouts)):
+                fails.append(f"{st['in']}: the connection attempt failed but data was relayed / message hooks fired")
+            if obs["quiescent"] and "C:c:f" not in allouts:
+                fails.append(f"{st['in']}: the connection attempt failed but the client was not closed")
         # (2) "a TCP half-close by one peer is propagated as a half-close while data still flows the other way"
         if proto == "tcp":
             err_seen = False
@@ -613,7 +756,7 @@ class Check(PropertyCheck):
                 # a full close (other than the client close after a failed connect) is only allowed once
                 # neither side can be read any more; `pre` = states when the event was handed to the layer
                 full = [o for o in st["out"] if o.startswith("C:") and o.endswith(":f")]
-                err_seen = err_seen or st["in"] == "connect 1"
+                err_seen = err_seen or bool(st.get("failed"))
                 if full and not err_seen:
                     # readability when the first full close is yielded: a half-close earlier in the same call on a socket
                     # whose write_eof raises has already closed that connection completely (close_connection, OSError branch)
@@ -648,7 +791,7 @@ class Check(PropertyCheck):
         dead = case.get("dead", "")
         head = (f"resetx {case['proto']} {case['flow']} {case['connected']} {int('c' in dead)} {int('s' in dead)}" if dead
                 else f"reset {case['proto']} {case['flow']} {case['connected']}")
-        return [head] + [st["in"] for st in steps]
+        return [head] + [st["in"] for st in steps] + [f"openreply {k} {m}" for k, m, _ in obs.get("openreplies", [])]
 
     def model_obs(self, case, replies):
         if case.get("tunnel"):
@@ -659,10 +802,11 @@ class Check(PropertyCheck):
     def impl_view(self, case, obs):
         if case.get("tunnel"):
             return ["%s ph=%s paused=%d q=%d n=%d live=%d err=%d" % (",".join(st["out"]) or "-", st["ph"], st["paused"], st["q"],
-                                                                     st["n"], st["live"], st["err"]) for st in obs["csteps"]]
+                                                                     st["n"], st["live"], st["err"]) for st in obs["csteps"]] + \
+                [r for _, _, r in obs.get("openreplies", [])]
         return ["%s c=%s s=%s ph=%s paused=%d q=%d n=%d live=%d err=%d" % (",".join(st["out"]) or "-", st["c"], st["s"], st["ph"],
                                                                              st["paused"], st["q"], st["n"], st["live"], st["err"])
-                for st in obs["steps"]]
+                for st in obs["steps"]] + [r for _, _, r in obs.get("openreplies", [])]
 
     def classify(self, case, obs):
         if "exc" in obs: return None
@@ -681,6 +825,9 @@ class Check(PropertyCheck):
         if any(st["in"].startswith("inject") for st in obs["steps"]): b.append("inject")
         if obs.get("killed"): b.append("kill-in-hook")
         if not well_formed(case): b.append("wild-schedule")
+        for a in case["sched"]:
+            if a[0] == "connect" and a[1] not in (0, 1): b.append(f"connect-outcome:{a[1]}")
+        if any(st.get("failed") for st in obs["steps"]): b.append("connect-failed(stub)")
         if case.get("dead"):
             b.append("dead-socket:" + case["dead"])
             if any(o.endswith(":h") for o in outs): b.append("write_eof-OSError-branch-taken")
